@@ -142,6 +142,10 @@ pub fn collect_sources<FS: FileSystem>(
     let mut files = VecDeque::new();
     files.push_back(root_file);
     while let Some(file_id) = files.pop_front() {
+        if file_set.contains(&file_id) {
+            // reached again through an include cycle or along a second path
+            continue;
+        }
         let parse = db.parse(file_id);
 
         let file_path = fs.path_for_file(&file_id);
